@@ -270,6 +270,11 @@ def dispatch (op : String) (a : Args) : Option String :=
       pure (match BC.binCompletion (← a.nat "B") ((← a.items "items").map val) FUEL with
             | .ok bins => jB a (Bins.mk (bins.map sumL) (bins.map fun l => l.map fun x => (x, x)))
             | .error e => jErr e)
+  | "bc_trace" => do
+      pure (match BC.binCompletionT (← a.nat "B") (← a.nats "vals") FUEL with
+            | .ok (bins, tr) => "{\"bins\":" ++ jList jNats bins ++ ",\"trace\":" ++
+                jList (fun (c : Nat × List Nat) => "[" ++ toString c.1 ++ "," ++ jNats c.2 ++ "]") tr ++ "}"
+            | .error e => jErr e)
   | "uniq" => do
       let ls ← a.get "lists" >>= parseBinsOf parseNatList
       pure (jList jNats (BC.uniq ls))
